@@ -1,11 +1,12 @@
 (* C06 — Funds on hold cover open orders and are released on close.  Property theorems only.
    Proved: holds never exceed balances in any reachable state; reserving / releasing never moves a total; a request
    without auto-borrow is accepted exactly when the hold update passes the rules, i.e. when available funds cover the
-   reservation, and a rejected one changes nothing.  C06_partial: "on hold = sum of the reservations of open orders"
-   over whole histories (invariant I3 of DESIGN.md) is validated by the correspondence check and the monitor. *)
+   reservation, and a rejected one changes nothing.  Proved over whole histories: on hold = sum of the reservations recorded for
+   orders, per symbol, in every reachable state (LedgerProofs.v); closing an order removes its reservation.
+   C06_partial: that no reservation outlives its order when closing itself aborts with an internal error. *)
 From Coq Require Import ZArith QArith List.
 From Basana Require Import Num.DecQ Exchange.Model Exchange.AcctProofs Exchange.StepProofs Exchange.OpProofs
-     Exchange.HoldProofs.
+     Exchange.HoldProofs Exchange.Prims Exchange.Structure Exchange.LedgerProofs.
 Import ListNotations.
 Open Scope Q_scope.
 
@@ -48,3 +49,24 @@ Theorem C06_close_releases_order_holds : forall c s o s' u x,
   s_holds s' = (if vnonempty (holds_get (s_holds s) (o_id o)) then holds_del (s_holds s) (o_id o) else s_holds s).
 Proof. exact closed_order_releases_holds. Qed.
 Print Assumptions C06_close_releases_order_holds.
+
+(* in every reachable state the amount on hold is exactly the sum of the reservations recorded for orders *)
+Theorem C06_hold_is_sum_of_reservations : forall c initial ops x,
+  cfg_ok c -> ops_ok ops -> (forall kv, In kv initial -> 0 <= snd kv) ->
+  let s := run c (init_st initial) ops in vget (hold (s_acct s)) x == hsum x s.
+Proof. exact holds_reachable. Qed.
+Print Assumptions C06_hold_is_sum_of_reservations.
+
+Theorem C06_primitive_transactions_keep_hold_eq_reservations : forall c s s',
+  WF s -> holds_inv s -> prim c s s' -> holds_inv s'.
+Proof. exact holds_prim. Qed.
+Print Assumptions C06_primitive_transactions_keep_hold_eq_reservations.
+
+Example C06_holds_nonvacuous :
+  let c := mkCfg [(1%positive, 2%nat); (2%positive, 2%nat)] [] None NoFee (VolShare 25 0) NoLoans in
+  let p := (1%positive, 2%positive) in
+  let ops := [OBar p 60%Z (mkBar 100 100 100 100 10); OCreate (KLimit 100) Buy p 5 false false;
+              OCreate (KLimit 90) Buy p 1 false false; OBar p 120%Z (mkBar 100 100 100 100 8)] in
+  let s := run c (init_st [(2%positive, 1000)]) ops in
+  cfg_ok c /\ ops_ok ops /\ Qeq_bool (hsum 2%positive s) 390 = true /\ Qeq_bool (vget (hold (s_acct s)) 2%positive) 390 = true.
+Proof. cbv zeta. split; [cbn; discriminate|]. split; [repeat constructor; cbn; discriminate|]. vm_compute. split; reflexivity. Qed.
